@@ -1932,3 +1932,165 @@ Proof.
   intros Hy Hd. apply not_ok_diag. intros t H.
   apply strict_success_envs_matched in H; [|exact Hy]. contradiction.
 Qed.
+
+(* counting after the loss of one \end *)
+
+(* is an Escape still waiting for its name after scanning `a`? *)
+Fixpoint pend (p : bool) (a : list token) : bool :=
+  match a with
+  | [] => p
+  | t :: r => if p then pend false r else if is_tc TEscape t then pend true r else pend false r
+  end.
+
+(* no `\end` is met at depth 0 *)
+Fixpoint eno_free_st (p : bool) (toks : list token) (d : nat) : bool :=
+  match toks with
+  | [] => true
+  | t :: r =>
+    if p then
+      if is_b t then eno_free_st false r (S d)
+      else if is_e t then match d with O => false | S d' => eno_free_st false r d' end
+      else eno_free_st false r d
+    else if is_tc TEscape t then eno_free_st true r d else eno_free_st false r d
+  end.
+Definition no_free_end (toks : list token) : bool := eno_free_st false toks 0.
+
+Definition no_escape (g : list token) : bool := forallb (fun t => negb (is_tc TEscape t)) g.
+
+Lemma escan_st_app a : forall p b d,
+  escan_st p (a ++ b) d = escan_st (pend p a) b (escan_st p a d).
+Proof.
+  induction a as [|t a IH]; intros p b d; simpl; [reflexivity|].
+  destruct p; [apply IH|]. destruct (is_tc TEscape t); apply IH.
+Qed.
+
+Lemma eno_free_app a : forall p b d,
+  eno_free_st p (a ++ b) d = true ->
+  eno_free_st p a d = true /\ eno_free_st (pend p a) b (escan_st p a d) = true.
+Proof.
+  induction a as [|t a IH]; intros p b d H; simpl in *; [auto|].
+  destruct p.
+  - unfold ebump. destruct (is_b t); [exact (IH _ _ _ H)|].
+    destruct (is_e t); [|exact (IH _ _ _ H)].
+    destruct d as [|d']; [discriminate|]. simpl. exact (IH _ _ _ H).
+  - destruct (is_tc TEscape t); exact (IH _ _ _ H).
+Qed.
+
+Lemma eshift l : forall p d, eno_free_st p l d = true ->
+  forall j, escan_st p l (d + j) = (escan_st p l d + j)%nat.
+Proof.
+  induction l as [|t l IH]; intros p d H j; simpl in *; [reflexivity|].
+  destruct p.
+  - unfold ebump. destruct (is_b t); [exact (IH false (S d) H j)|].
+    destruct (is_e t); [|exact (IH false d H j)].
+    destruct d as [|d']; [discriminate|]. simpl. exact (IH false d' H j).
+  - destruct (is_tc TEscape t); [exact (IH true d H j) | exact (IH false d H j)].
+Qed.
+
+Lemma no_escape_scan g : no_escape g = true -> forall b d,
+  escan_st false (g ++ b) d = escan_st false b d /\
+  eno_free_st false (g ++ b) d = eno_free_st false b d.
+Proof.
+  induction g as [|t g IH]; intros H b d; simpl in *; [auto|].
+  apply andb_true_iff in H. destruct H as [Ht Hg]. apply negb_true_iff in Ht. rewrite Ht.
+  apply IH. exact Hg.
+Qed.
+
+(* a ++ \end{..} ++ b is environment-matched without free \end; then a ++ b
+   has exactly one unmatched \begin *)
+Lemma lost_end_depth a e n g b :
+  pend false a = false -> is_tc TEscape e = true -> is_e n = true -> no_escape g = true ->
+  env_matched (a ++ e :: n :: g ++ b) -> no_free_end (a ++ e :: n :: g ++ b) = true ->
+  escan (a ++ b) 0 = 1%nat.
+Proof.
+  unfold env_matched, no_free_end, escan. intros Ha He Hn Hg Hm Hf.
+  assert (Hb : is_b n = false).
+  { unfold is_e in Hn. apply str_eqb_eq in Hn. unfold is_b. rewrite Hn. reflexivity. }
+  apply eno_free_app in Hf. destruct Hf as [_ Hf].
+  rewrite escan_st_app in Hm |- *. rewrite Ha in *.
+  simpl in Hm, Hf. rewrite He in Hm, Hf. unfold ebump in Hm. rewrite Hb, Hn in Hm, Hf.
+  destruct (no_escape_scan g Hg b) as [_ F2]. 
+  destruct (escan_st false a 0) as [|k]; [discriminate Hf|].
+  rewrite (proj1 (no_escape_scan g Hg b _)) in Hm. rewrite F2 in Hf. simpl in Hm.
+  replace (S k) with (k + 1)%nat by lia. rewrite (eshift b false k Hf 1). lia.
+Qed.
+
+(* clause 2 for a lost \end{name}, by counting: wherever the environment is
+   nested, whatever follows *)
+Theorem lost_end_strict_fails_count a e n g b user :
+  pend false a = false -> is_tc TEscape e = true -> is_e n = true -> no_escape g = true ->
+  env_matched (a ++ e :: n :: g ++ b) -> no_free_end (a ++ e :: n :: g ++ b) = true ->
+  envtidy (Tables.skip_env_names ++ user) (a ++ b) = true ->
+  parse_tokens (a ++ b) true user = Err EOFError \/
+  parse_tokens (a ++ b) true user = Err TypeError \/
+  parse_tokens (a ++ b) true user = Err AssertionError.
+Proof.
+  intros Ha He Hn Hg Hm Hf Hy. apply unmatched_env_strict_fails; [exact Hy|].
+  rewrite (lost_end_depth a e n g b Ha He Hn Hg Hm Hf). discriminate.
+Qed.
+
+Theorem lost_end_repaired_count a e n g b user :
+  pend false a = false -> is_tc TEscape e = true -> is_e n = true -> no_escape g = true ->
+  env_matched (a ++ e :: n :: g ++ b) -> no_free_end (a ++ e :: n :: g ++ b) = true ->
+  plain (Tables.skip_env_names ++ user) (a ++ b) = true ->
+  nospecial (a ++ b) = true -> sig_ok (a ++ b) = true ->
+  (parse_tokens (a ++ b) true user = Err EOFError \/
+   parse_tokens (a ++ b) true user = Err TypeError) /\
+  exists t, parse_tokens (a ++ b) false user = Ok t.
+Proof.
+  intros Ha He Hn Hg Hm Hf Hp Hs Hsig. split; [|apply tolerant_total; exact Hp].
+  assert (Hy : envtidy (Tables.skip_env_names ++ user) (a ++ b) = true).
+  { unfold envtidy. rewrite Hs, Hsig. apply plain_parts in Hp. destruct Hp as (_ & _ & ->).
+    reflexivity. }
+  destruct (plain_strict_cases _ _ Hp) as [(t & E)|H]; [|exact H]. exfalso.
+  destruct (lost_end_strict_fails_count a e n g b user Ha He Hn Hg Hm Hf Hy) as [H|[H|H]];
+    rewrite H in E; discriminate E.
+Qed.
+
+Definition doc_nested_env : str := [92; 98; 101; 103; 105; 110; 123; 100; 125; 32; 117; 32; 92; 98; 101; 103; 105; 110; 123; 101; 125; 32; 120; 32; 92; 101; 110; 100; 123; 101; 125; 32; 118; 32; 92; 101; 110; 100; 123; 100; 125]%N.   (* \begin{d} u \begin{e} x \end{e} v \end{d} *)
+Definition doc_nested_env_lost : str := [92; 98; 101; 103; 105; 110; 123; 100; 125; 32; 117; 32; 92; 98; 101; 103; 105; 110; 123; 101; 125; 32; 120; 32; 32; 118; 32; 92; 101; 110; 100; 123; 100; 125]%N.   (* \begin{d} u \begin{e} x  v \end{d}   (inner \end{e} lost) *)
+Definition doc_nested_env_fixed : str := [92; 98; 101; 103; 105; 110; 123; 100; 125; 32; 117; 32; 92; 98; 101; 103; 105; 110; 123; 101; 125; 32; 120; 32; 32; 118; 32; 92; 101; 110; 100; 123; 101; 125; 92; 101; 110; 100; 123; 100; 125]%N.   (* \begin{d} u \begin{e} x  v \end{e}\end{d} *)
+Definition doc_bare_begin : str := [92; 116; 101; 120; 116; 98; 102; 92; 98; 101; 103; 105; 110; 123; 101; 125; 32; 120]%N.   (* \textbf\begin{e} x *)
+Definition doc_special_begin : str := [92; 110; 101; 119; 99; 111; 109; 109; 97; 110; 100; 123; 92; 98; 101; 103; 105; 110; 123; 120; 125; 125]%N.   (* \newcommand{\begin{x}} *)
+Definition doc_sig_env : str := [92; 115; 101; 99; 116; 105; 111; 110; 123; 97; 125; 32; 92; 116; 101; 120; 116; 98; 102; 123; 98; 125; 32; 92; 98; 101; 103; 105; 110; 123; 101; 125; 32; 120]%N.   (* \section{a} \textbf{b} \begin{e} x *)
+
+Example strict_success_envs_matched_ex :
+  envtidy SK0 (toks_of doc_nested_env) = true /\
+  (exists t, parse_tokens (toks_of doc_nested_env) true [] = Ok t) /\
+  env_matched (toks_of doc_nested_env).
+Proof. split; [vm_compute; reflexivity|]. split; [eexists; vm_compute; reflexivity|]. vm_compute. reflexivity. Qed.
+
+(* the inner \end{e} of a nested environment is lost: the next \end does not
+   compensate it *)
+Example lost_end_count_ex :
+  let toks := toks_of doc_nested_env in
+  let a := firstn 12 toks in let e := nth 12 toks dflt in let n := nth 13 toks dflt in
+  let g := firstn 3 (skipn 14 toks) in let b := skipn 17 toks in
+  toks = a ++ e :: n :: g ++ b /\ texts (a ++ b) = doc_nested_env_lost /\
+  pend false a = false /\ is_tc TEscape e = true /\ is_e n = true /\ no_escape g = true /\
+  env_matched (a ++ e :: n :: g ++ b) /\ no_free_end (a ++ e :: n :: g ++ b) = true /\
+  plain SK0 (a ++ b) = true /\ nospecial (a ++ b) = true /\ sig_ok (a ++ b) = true /\
+  has_end b = true /\
+  parse_tokens (a ++ b) true [] = Err EOFError /\
+  shown (parse_tokens (a ++ b) false []) = inl doc_nested_env_fixed.
+Proof. vm_compute. repeat split. Qed.
+
+(* commands of the fixed-signature table are allowed when their `{` is in place *)
+Example unmatched_env_ex :
+  envtidy SK0 (toks_of doc_sig_env) = true /\ escan (toks_of doc_sig_env) 0 = 1%nat /\
+  parse_tokens (toks_of doc_sig_env) true [] = Err EOFError.
+Proof. vm_compute. repeat split. Qed.
+
+(* `envtidy` cannot be dropped: a \begin taken as the bare argument of
+   \textbf, and a \begin inside \newcommand (special mode), are plain commands -
+   strict parsing succeeds with an unmatched \begin *)
+Theorem envs_matched_without_envtidy_refuted :
+  (exists toks t, sig_ok toks = false /\ nospecial toks = true /\ begins_ok SK0 toks = true /\
+                  parse_tokens toks true [] = Ok t /\ escan toks 0 = 1%nat) /\
+  (exists toks t, sig_ok toks = true /\ nospecial toks = false /\ begins_ok SK0 toks = true /\
+                  parse_tokens toks true [] = Ok t /\ escan toks 0 = 1%nat).
+Proof.
+  split.
+  - exists (toks_of doc_bare_begin). eexists. repeat split; vm_compute; reflexivity.
+  - exists (toks_of doc_special_begin). eexists. repeat split; vm_compute; reflexivity.
+Qed.
